@@ -9,6 +9,7 @@ import re
 
 from .. import exprtree as et
 from ..facts import REPO
+from ..mir import op_base
 
 EXPLANATION = (
     "Static grammar analysis: every milu::parser rule function's nom combinator expression is rebuilt from MIR "
@@ -19,7 +20,8 @@ EXPLANATION = (
     "(5) every token parser is preceded by the blank skipper. Decides these structural necessary conditions, "
     "not tree equality for every input."
     " BUDGET: the parser's per-thread nesting budget guard charges only on the granted edge and its token's Drop gives the unit back (acceptance does not depend on earlier refusals)."
-    " R5-look: a token's negative look-ahead over punctuation excludes nothing the following operand can begin with (FIRST sets over the reconstructed grammar).")
+    " R5-look: a token's negative look-ahead over punctuation excludes nothing the following operand can begin with (FIRST sets over the reconstructed grammar)."
+    ' R4-ctor case-fold: keyword operators the grammar matches without regard to case are looked up case-folded by the tree constructor.')
 RULE_TEXT = ("instances = (level, spelling) pairs, alt groups, token parsers, constructor arms; non-trivial = "
              "those needing a table comparison or dominance/shape argument")
 TRUSTED = ["nom ordered-choice/many0 semantics as documented", "rustc MIR construction", "milu/readme.md table is the documented grammar"]
@@ -696,6 +698,34 @@ def run(chk, prog):
             chk.finding("R4-ctor", P + N2, "dead-arm", t, "milu/src/parser.rs",
                         "parse2 has a constructor arm for %r but no grammar level produces that literal: the operator "
                         "exists in the evaluator yet cannot be written" % t)
+    # a keyword operator the grammar matches without regard to case (`tag_no_case("and")`) reaches the constructor in the spelling the
+    # user wrote: the constructor has to fold the case before it looks the literal up, or `AND` falls into the default arm (a panic)
+    nocase = sorted(set(t.lower() for name, sh in ladder for t, nc in sh["toks"] if nc and any(ch.isalpha() for ch in t)))
+    if nocase and "binary" in CT:
+        f = CT["binary"]
+        eqs = [c for c in f.calls if re.search(r"cmp::PartialEq::eq$|str::traits::.*eq$", c.path or "") and len(c.args) == 2
+               and any(f.str_of(a) is not None for a in c.args)]
+        folded = 0
+        for c in eqs:
+            subj = [a for a in c.args if f.str_of(a) is None]
+            okc = False
+            for a in subj:
+                l = op_base(a)
+                tr = f.trace(l, through_calls=[r"Deref::deref$", r"String::as_str$", r"AsRef::as_ref$", r"Borrow::borrow$"]) if l is not None else []
+                if any(k == "call" and re.search(r"to_ascii_lowercase$|to_lowercase$|to_ascii_uppercase$|to_uppercase$", info.path or "") for k, info in tr):
+                    okc = True
+            if re.search(r"eq_ignore_ascii_case$", c.path or ""):
+                okc = True
+            folded += 1 if okc else 0
+        ign = [c for c in f.calls if re.search(r"eq_ignore_ascii_case$", c.path or "")]
+        ok = bool(eqs or ign) and (folded == len(eqs))
+        chk.instance("R4-ctor", "milu/src/parser.rs", "keyword operators %s are matched case-insensitively by the grammar and looked up case-folded in %s" % (nocase, N2), ok,
+                     "%d of %d literal comparisons see a case-folded operator" % (folded, len(eqs)))
+        if not ok:
+            chk.finding("R4-ctor", P + N2, "case-fold", ",".join(nocase), "milu/src/parser.rs",
+                        "the grammar accepts the keyword operators %s in any letter case but %s compares the operator text as written (%d of %d "
+                        "comparisons are case-folded): `A AND B` parses and then reaches the default arm, which panics - a configuration "
+                        "or a posted rule list crashes the process instead of being rejected" % (nocase, N2, folded, len(eqs)))
     for t, _ in utoks:
         ok = t in a1
         chk.instance("R4-ctor", "milu/src/parser.rs", "unary literal %r has a parse1 arm" % t, ok)
